@@ -310,7 +310,7 @@ def obligations(tier, seed):
         if "qua" not in (src, tgt) and src != "o2j":
             obs.append(_ob(src, tgt, 3, "e"))
             if not quick:
-                obs.append(_ob(src, tgt, 3, "a"))
+                obs.append(_ob(src, tgt, 3, "c"))  # (variants a/b put a hit inside a hold of its lane when there are only 3 lanes)
         if (src, tgt) in (("osu", "bms"), ("bms", "osu")):
             obs.append(_ob(src, tgt, 16, "e"))
             if not quick:
